@@ -1,7 +1,7 @@
 (* C05 model (self-contained part): the "is this sample usable" filters and the loops that apply them, as written in
      Db::getSelection / isActive / isActiveAndDefined      /repo/src/Db/Db.cpp:2703 / 2928 / 2933
      Db::getWeight                                          Db.cpp:2802
-     Db::getRanksActive / getMultipleRanksActive            Db.cpp:3535 / 3517
+     Db::getRanksActive / getMultipleRanksActive            Db.cpp:3536 / 3517   (selection read through isActive(), optional useCoord)
      dbStatisticsMono (accept[], per-variable loop)         /repo/src/Stats/Classical.cpp:480
      dbStatisticsMulti (cell icol1,icol2; weights)          Classical.cpp:1605
      ACov::evalCovMatrix / evalCovMatrixSymmetric           /repo/src/Covariances/ACov.cpp:872 / 1082
@@ -9,6 +9,8 @@
      DriftList::evalDriftMatrix                             /repo/src/Drifts/DriftList.cpp:466
      ACalcDbVarCreator::_addVariableDb(..., TEST) + CalcKriging::_run loop + KrigingSystem::estimate's
        "if (! _dbout->isActive(_iechOut)) return 0;"        ACalcDbVarCreator.cpp:64, CalcKriging.cpp:_run, KrigingSystem.cpp:1775
+     CalcSimuTurningBands::_minmax / _isSampleUsable / _simulatePoint (activeArray) / _run (masked targets reset to TEST)
+                                                            /repo/src/Simulation/CalcSimuTurningBands.cpp:280, 301, 1100, 1954
    The models of C01 (kriging system), C06 (moving neighbourhood) and C12 (variogram pair loops) are imported by
    the Spec_*/Proofs_* files.  Executable definitions only; exact rational arithmetic; None = TEST. *)
 From Coq Require Import List Arith ZArith QArith Qabs Bool.
@@ -22,8 +24,10 @@ Definition isdef (o : oq) : bool := match o with Some _ => true | None => false 
 (* ------------------------------------------------------------------ one row of a Db *)
 Record row := { r_sel : oq;            (* value of the ELoc::SEL column (meaningful when the Db has one) *)
                 r_w   : oq;            (* value of the ELoc::W column *)
+                r_coords : list oq;    (* coordinates (ELoc::X columns) *)
                 r_vals : list oq;      (* the variables looked at (Z locators or named columns) *)
                 r_verr : list oq }.    (* ELoc::V columns *)
+Definition coords_defined (r : row) : bool := forallb isdef (r_coords r).
 
 Definition eps10 : Q := 1 # 10000000000.
 (* Db::getSelection: no SEL locator -> 1; TEST -> 0; else !isZero(value) *)
@@ -101,14 +105,13 @@ Definition stat_multi (hasSel hasW : bool) (i1 i2 : nat) (l : list row) : multi_
   multi_finish (multi_loop hasSel hasW i1 i2 l).
 
 (* ------------------------------------------------------------------ Db::getRanksActive *)
-Definition dummy_row : row := {| r_sel := None; r_w := None; r_vals := []; r_verr := [] |}.
+Definition dummy_row : row := {| r_sel := None; r_w := None; r_coords := []; r_vals := []; r_verr := [] |}.
 Definition nth_row (db : list row) (i : nat) : row := nth i db dummy_row.
-(* "value = getValueByColIdx(iech, icol); if (value <= 0) continue;"   (TEST = 1.234e30 is > 0) *)
-Definition sel_pass (r : row) : bool := match r_sel r with None => true | Some v => qltb 0 v end.
 Definition verr_pass (item : nat) (r : row) : bool :=
   match nth item (r_verr r) None with None => false | Some v => negb (qltb v 0) end.
-(* nz = number of Z locators, nv = number of V locators; item : Z (negative = none) *)
-Definition ranks_active (hasSel : bool) (nz nv : nat) (nbgh : list nat) (item : Z) (useSel useVerr : bool)
+(* nz = number of Z locators, nv = number of V locators; item : Z (negative = none).
+   "if (icol >= 0) { if (! isActive(iech)) continue; }"  then  "if (useCoord) { ... FFFF(getCoordinate) ... continue; }" *)
+Definition ranks_active (hasSel : bool) (nz nv : nat) (nbgh : list nat) (item : Z) (useSel useVerr useCoord : bool)
                         (db : list row) : list nat :=
   let init := match nbgh with [] => seq 0 (length db) | _ => nbgh end in
   let icol := useSel && hasSel in
@@ -116,13 +119,14 @@ Definition ranks_active (hasSel : bool) (nz nv : nat) (nbgh : list nat) (item : 
   let useV := useVerr && (0 <=? item')%Z && (Z.to_nat item' <? nv)%nat in
   filter (fun iech =>
             let r := nth_row db iech in
-            (negb icol || sel_pass r) &&
+            (negb icol || is_active hasSel r) &&
+            (negb useCoord || coords_defined r) &&
             ((item' <? 0)%Z || isdef (nth (Z.to_nat item') (r_vals r) None)) &&
             (negb useV || verr_pass (Z.to_nat item') r)) init.
-Definition multiple_ranks_active (hasSel : bool) (nz nv : nat) (ivars : list nat) (nbgh : list nat) (useSel useVerr : bool)
+Definition multiple_ranks_active (hasSel : bool) (nz nv : nat) (ivars : list nat) (nbgh : list nat) (useSel useVerr useCoord : bool)
                                  (db : list row) : list (list nat) :=
   let jvars := match ivars with [] => seq 0 nz | _ => ivars end in
-  map (fun jv => ranks_active hasSel nz nv nbgh (Z.of_nat jv) useSel useVerr db) jvars.
+  map (fun jv => ranks_active hasSel nz nv nbgh (Z.of_nat jv) useSel useVerr useCoord db) jvars.
 
 (* ------------------------------------------------------------------ matrices built on the index lists *)
 (* rows: for ivar, for iech in index1[ivar]; columns: for jvar, for jech in index2[jvar] *)
@@ -138,18 +142,19 @@ Section Matrices.
   Variable cov : nat -> nat -> nat -> nat -> Q.        (* cov ivar iech jvar jech : value of eval(p1,p2,ivar,jvar) *)
   Variable drift : nat -> nat -> nat -> Q.             (* drift ivar iech jb : evalDriftValue *)
   Variable hasSel : bool. Variable nz nv : nat.
-  (* ACov::evalCovMatrix(db1, db2 = db1, ivars, jvars): getMultipleRanksActive(ivars, nbgh) with useSel = true, useVerr = false *)
+  (* ACov::evalCovMatrix(db1, db2 = db1, ivars, jvars): getMultipleRanksActive(ivars, nbgh, true, false, true) *)
   Definition cov_matrix (ivars jvars : list nat) (db : list row) : list (list Q) :=
-    mat_on ivars jvars (multiple_ranks_active hasSel nz nv ivars [] true false db)
-           (multiple_ranks_active hasSel nz nv jvars [] true false db) cov.
-  (* evalCovMatrixSymmetric: useVerr = true (the measurement-error update of the diagonal is not modelled) *)
+    mat_on ivars jvars (multiple_ranks_active hasSel nz nv ivars [] true false true db)
+           (multiple_ranks_active hasSel nz nv jvars [] true false true db) cov.
+  (* evalCovMatrixSymmetric: (ivars, nbgh, true, true, true) (the measurement-error update of the diagonal is not modelled) *)
   Definition cov_matrix_sym (ivars : list nat) (db : list row) : list (list Q) :=
-    mat_on ivars ivars (multiple_ranks_active hasSel nz nv ivars [] true true db)
-           (multiple_ranks_active hasSel nz nv ivars [] true true db) cov.
-  (* evalDriftMatrix (not linked): one row per (ivar, iech in index[ivar]), columns jb = 0..ncols-1 *)
+    mat_on ivars ivars (multiple_ranks_active hasSel nz nv ivars [] true true true db)
+           (multiple_ranks_active hasSel nz nv ivars [] true true true db) cov.
+  (* evalDriftMatrix (not linked): getMultipleRanksActive(ivars, nbgh, true, useVerr, true);
+     one row per (ivar, iech in index[ivar]), columns jb = 0..ncols-1 *)
   Definition drift_matrix (ivars : list nat) (ncols : nat) (useVerr : bool) (db : list row) : list (list Q) :=
     flat_map (fun vi : nat * list nat => map (fun iech => map (fun jb => drift (fst vi) iech jb) (seq 0 ncols)) (snd vi))
-             (combine ivars (multiple_ranks_active hasSel nz nv ivars [] true useVerr db)).
+             (combine ivars (multiple_ranks_active hasSel nz nv ivars [] true useVerr true db)).
 End Matrices.
 
 (* ------------------------------------------------------------------ output initialisation + target loop *)
@@ -164,3 +169,29 @@ Definition estimate_at (nold : nat) (res : list oq) (t : trow) : trow :=
   if t_active t then {| t_active := true; t_cells := firstn nold (t_cells t) ++ res |} else t.
 Definition run_targets (nold nnew : nat) (est : nat -> list oq) (ts : list trow) : list trow :=
   map (fun it => estimate_at nold (est (fst it)) (add_columns nnew (snd it))) (combine (seq 0 (length ts)) ts).
+
+(* ------------------------------------------------------------------ turning bands: which samples count *)
+(* _isSampleUsable: coordinates defined and, when the Db carries variables, at least one of them defined *)
+Definition simu_usable (nz : nat) (r : row) : bool :=
+  coords_defined r && ((nz =? 0)%nat || existsb isdef (r_vals r)).
+(* _minmax on a set of points, one band: extent [tmin, tmax] of the projections (proj = _codirs[ibs].projectPoint) of
+   the samples that are active and usable *)
+Definition band_step (hasSel : bool) (nz : nat) (proj : row -> Q) (st : Q * Q) (r : row) : Q * Q :=
+  if is_active hasSel r && simu_usable nz r then
+    let t := proj r in
+    (if qltb t (fst st) then t else fst st, if qltb (snd st) t then t else snd st)
+  else st.
+Definition band_minmax (hasSel : bool) (nz : nat) (proj : row -> Q) (init : Q * Q) (l : list row) : Q * Q :=
+  fold_left (band_step hasSel nz proj) l init.
+(* _simulatePoint: the non-conditional simulation is computed at the samples of activeArray only *)
+Definition simu_active_array (hasSel : bool) (nz : nat) (l : list row) : list bool :=
+  map (fun r => is_active hasSel r && simu_usable nz r) l.
+
+(* the output variables of a simulation are created with 0 (values are accumulated band after band at the active
+   targets), and the last step of _run writes TEST at every masked target *)
+Definition simu_at (nold nnew : nat) (res : list oq) (t : trow) : trow :=
+  let t0 := {| t_active := t_active t; t_cells := t_cells t ++ repeat (Some 0) nnew |} in        (* _addVariableDb(.., 0.) *)
+  let t1 := if t_active t then {| t_active := true; t_cells := firstn nold (t_cells t0) ++ res |} else t0 in
+  if t_active t1 then t1 else {| t_active := false; t_cells := firstn nold (t_cells t1) ++ repeat None nnew |}.
+Definition run_simu_targets (nold nnew : nat) (sim : nat -> list oq) (ts : list trow) : list trow :=
+  map (fun it => simu_at nold nnew (sim (fst it)) (snd it)) (combine (seq 0 (length ts)) ts).
